@@ -51,6 +51,28 @@ def threads_on_a_real_loop(tier, seed):
         for th in ths:
             th.join()
         rt.join()
+        # pushes made ON the loop thread (reactor callbacks do this): a multi-chunk message followed by a small one must stay in that order
+        tail_msgs = [b'\xfe' * 9000, b'\xfd' * 10, b'\xfc' * 4097, b'\xfb']
+        got_tail = bytearray()
+
+        def tail_reader():
+            b.settimeout(5)
+            try:
+                while len(got_tail) < sum(map(len, tail_msgs)):
+                    ch = b.recv(1 << 16)
+                    if not ch:
+                        break
+                    got_tail.extend(ch)
+            except socket.timeout:
+                pass
+        tr = threading.Thread(target=tail_reader)
+        tr.start()
+        loop.call_soon_threadsafe(lambda: [c.push(m) for m in tail_msgs])
+        tr.join()
+        n += len(tail_msgs)
+        if bytes(got_tail) != b''.join(tail_msgs):
+            fails.append('round %d: messages pushed from the loop thread arrived reordered or damaged (%d of %d bytes, first differing offset %d)' % (
+                rnd, len(got_tail), sum(map(len, tail_msgs)), next((i for i, (x, y) in enumerate(zip(got_tail, b''.join(tail_msgs))) if x != y), min(len(got_tail), sum(map(len, tail_msgs))))))
         writer.cancel()
         loop.call_soon_threadsafe(loop.stop)
         t.join(2)
